@@ -25,6 +25,10 @@ func dispatch(kind string, args []*Sexp) (out *Sexp) {
 	case "binop", "vmbinop", "equal", "nequal", "vmequal", "vmnequal", "unop", "vmunop":
 		return runC15(kind, args)
 	}
+	switch kind {
+	case "skelvm", "skelsem", "skelsrc":
+		return runC03(kind, args)
+	}
 	return L(A("unknown-kind"), A(kind))
 }
 
